@@ -477,7 +477,9 @@ def rule_l8(ctx, facts):
                         src = op_root(st["rv"]["use"])
                         if src is None:
                             continue
-                        roots = fl.roots_at(src, Point(bi, si))
+                        # `Some(x)` / tuple wrappers the pointer passes through on its way (an expanded `then(..).unwrap_or_else(..)`) are
+                        # not producers: their operands are followed
+                        roots = {r for r in fl.roots_at(src, Point(bi, si)) if r[0] != "agg"}
                         calls = [b.call_at(r[1]) for r in roots if r[0] == "call"]
                         # null results and results of nested finders are not judged here
                         if calls and all(callee_str(x).endswith("Shared::null") or is_finder(facts, x) for x in calls):
